@@ -96,7 +96,7 @@ def check_record(args):
 
 def jobs(chk, tier):
     sd = C.seed()
-    for r, g, cfg in T.records(chk, tier, INVS):
+    for r, g, cfg in T.records(chk, tier, INVS, runs=T.deep_runs(tier)):
         if not r.get('reject'):
             yield (r, g, 'exact', sd)
 
